@@ -1,17 +1,19 @@
 (* ChainParse.v — from the path text: a path made of any number of steps — names in any of the three spellings
    ( ["k"]  ['k']  .k ), indexes [digits], wildcards .* [*], each possibly after `..` — is accepted by the grammar and
    builds the chain of nodes the steps stand for. *)
-From JP Require Import Peg Grammar Slice Text Tree Actions PegFacts PegMono PegEv Codec FuelRules ParseFacts KeyDefs KeyParse IdxParse WildParse RecParse.
+From JP Require Import Peg Grammar Slice Text Tree Actions PegFacts PegMono PegEv Codec FuelRules ParseFacts KeyDefs KeyParse IdxParse SliceParse WildParse RecParse.
 From Coq Require Import Lia.
 Local Open Scope N_scope.
 Open Scope list_scope.
 
+Definition atoi_ok (t : list N) : bool := match t with [] => true | _ :: _ => match atoi t with Some _ => true | None => false end end.
 Definition step_ok (s : kstep) : bool :=
   match s with
   | SBr q _ => (q =? 34) || (q =? 39)
   | SDot k => match k with [] => false | _ :: _ => forallb dot_char k end
   | SIdx ds => match ds with [] => false | _ :: _ => forallb is_digit ds && (match atoi ds with Some _ => true | None => false end) end
   | SWild _ => true
+  | SSlice a b c0 => slice_ok a b c0 && atoi_ok a && atoi_ok b && match c0 with Some t => atoi_ok t | None => true end
   end.
 Definition step_tokens (p : nat) (s : kstep) : list token :=
   match s with
@@ -20,6 +22,7 @@ Definition step_tokens (p : nat) (s : kstep) : list token :=
   | SIdx ds => idx_tokens p ds
   | SWild true => [TAct 12; TText p (p + 2); TAct 4]
   | SWild false => [TAct 12; TText p (p + 3); TAct 7]
+  | SSlice a b c0 => slice_step_tokens p a b c0
   end.
 
 Lemma render_len_br q k : List.length (render_step (SBr q k)) = (List.length (esc_cps q k) + 4)%nat.
@@ -31,6 +34,11 @@ Lemma render_len_idx ds : List.length (render_step (SIdx ds)) = (List.length ds 
 Proof. cbn [render_step List.length]. rewrite app_length. cbn [List.length]. lia. Qed.
 
 
+Lemma render_len_slice a b c0 : List.length (render_step (SSlice a b c0)) = (List.length (slice_body a b c0) + 2)%nat.
+Proof. cbn [render_step List.length]. rewrite app_length. cbn [List.length]. lia. Qed.
+Lemma slice_ok_of a b c0 : step_ok (SSlice a b c0) = true -> slice_ok a b c0 = true.
+Proof. cbn [step_ok]. intros H. apply andb_true_iff in H. destruct H as [H _]. apply andb_true_iff in H. destruct H as [H _]. apply andb_true_iff in H. tauto. Qed.
+
 Lemma q_ok q : (q =? 34) || (q =? 39) = true -> q = 34 \/ q = 39.
 Proof. intros H. apply orb_true_iff in H. destruct H as [H|H]; apply N.eqb_eq in H; auto. Qed.
 
@@ -38,7 +46,7 @@ Proof. intros H. apply orb_true_iff in H. destruct H as [H|H]; apply N.eqb_eq in
 Lemma ev_rule7_step s rest pos : step_ok s = true -> dot_stop rest ->
   evG (PRef 7) (render_step s ++ rest) pos (POk rest (pos + List.length (render_step s)) (step_tokens pos s)).
 Proof.
-  intros Hs Hr. destruct s as [q k|k|ds|[|]].
+  intros Hs Hr. destruct s as [q k|k|ds|[|]|a b c0].
   - cbn [step_ok] in Hs. apply q_ok in Hs. rewrite render_len_br. cbn [render_step step_tokens app].
     rewrite <- app_assoc. cbn [app]. eapply ev_conv; [apply ev_rule7; exact Hs|]. f_equal. lia.
   - destruct k as [|c k]; [discriminate Hs|]. cbn [step_ok] in Hs. rewrite render_len_dot. cbn [render_step step_tokens app].
@@ -48,9 +56,11 @@ Proof.
     eapply ev_conv; [apply (ev_rule7_idx d ds rest pos); exact Hd|]. f_equal. lia.
   - cbn [render_step step_tokens app List.length]. apply ev_rule7_dotwild. exact Hr.
   - cbn [render_step step_tokens app List.length]. apply ev_rule7_brwild.
+  - rewrite render_len_slice. cbn [render_step step_tokens]. cbn [app]. rewrite <- app_assoc. cbn [app].
+    eapply ev_conv; [apply ev_rule7_slice; apply slice_ok_of; exact Hs|]. f_equal. lia.
 Qed.
 Lemma render_step_len_pos s : (1 <= List.length (render_step s))%nat.
-Proof. destruct s as [q k|k|ds|[|]]; cbn [render_step List.length]; lia. Qed.
+Proof. destruct s as [q k|k|ds|[|]|a b c0]; cbn [render_step List.length]; lia. Qed.
 
 (* ---------- steps after `..` ---------- *)
 Definition rstep_ok (x : rstep) : bool := match x with RPlain s | RRec s => step_ok s end.
@@ -70,29 +80,31 @@ Fixpoint steps_tokens (p : nat) (steps : list rstep) : list token :=
   end.
 
 Lemma steps_stop steps : dot_stop (render_steps steps).
-Proof. destruct steps as [|[[q k|k|ds|[|]]|s] r]; cbn; auto. Qed.
+Proof. destruct steps as [|[[q k|k|ds|[|]|a b c0]|s] r]; cbn; auto. Qed.
 
 Lemma rec_body_bracket s : (match s with SDot _ | SWild true => False | _ => True end) -> rec_body s = render_step s.
-Proof. destruct s as [q k|k|ds|[|]]; intros H; try contradiction; reflexivity. Qed.
+Proof. destruct s as [q k|k|ds|[|]|a b c0]; intros H; try contradiction; reflexivity. Qed.
 
 (* the bracket forms go through bracketNode whatever follows *)
 Lemma ev_rule10_step s rest pos : step_ok s = true -> (match s with SDot _ | SWild true => False | _ => True end) ->
   evG (PRef 10) (render_step s ++ rest) pos (POk rest (pos + List.length (render_step s)) (step_tokens pos s)).
 Proof.
-  intros Hs Hb. destruct s as [q k|k|ds|[|]]; try contradiction.
+  intros Hs Hb. destruct s as [q k|k|ds|[|]|a b c0]; try contradiction.
   - cbn [step_ok] in Hs. apply q_ok in Hs. rewrite render_len_br. cbn [render_step step_tokens app].
     rewrite <- app_assoc. cbn [app]. eapply ev_conv; [apply ev_rule10; exact Hs|]. f_equal. lia.
   - destruct ds as [|d ds]; [discriminate Hs|]. cbn [step_ok] in Hs. apply andb_true_iff in Hs. destruct Hs as [Hd _].
     rewrite render_len_idx. cbn [render_step step_tokens]. cbn [app]. rewrite <- app_assoc. cbn [app].
     eapply ev_conv; [apply (ev_rule10_idx d ds rest pos); exact Hd|]. f_equal. lia.
   - cbn [render_step step_tokens app List.length]. apply ev_rule10_wild.
+  - rewrite render_len_slice. cbn [render_step step_tokens]. cbn [app]. rewrite <- app_assoc. cbn [app].
+    eapply ev_conv; [apply ev_rule10_slice; apply slice_ok_of; exact Hs|]. f_equal. lia.
 Qed.
 
 Lemma ev_rule7_rstep x rest pos : rstep_ok x = true -> dot_stop rest ->
   evG (PRef 7) (render_rstep x ++ rest) pos (POk rest (pos + List.length (render_rstep x)) (rstep_tokens pos x)).
 Proof.
   intros Hs Hr. destruct x as [s|s]; [apply ev_rule7_step; assumption|]. cbn [rstep_ok] in Hs.
-  destruct s as [q k|k|ds|[|]].
+  destruct s as [q k|k|ds|[|]|a b c0].
   - cbn [render_rstep rstep_tokens rec_body]. cbn [app List.length].
     pose proof (ev_rule10_step (SBr q k) rest (pos + 2)%nat Hs I) as H10.
     pose proof (ev_rule7_rec_br (render_step (SBr q k)) rest pos _ (List.length (render_step (SBr q k))) H10) as H7.
@@ -109,6 +121,10 @@ Proof.
     pose proof (ev_rule7_rec_br (render_step (SWild false)) rest pos _ (List.length (render_step (SWild false))) H10) as H7.
     eapply ev_conv; [exact H7|]. f_equal.
     cbn [List.length]. lia.
+  - cbn [render_rstep rstep_tokens rec_body]. cbn [app List.length].
+    pose proof (ev_rule10_step (SSlice a b c0) rest (pos + 2)%nat Hs I) as H10.
+    pose proof (ev_rule7_rec_br (render_step (SSlice a b c0)) rest pos _ (List.length (render_step (SSlice a b c0))) H10) as H7.
+    eapply ev_conv; [exact H7|]. f_equal. lia.
 Qed.
 Lemma render_rstep_len_pos x : (1 <= List.length (render_rstep x))%nat.
 Proof. destruct x as [s|s]; [apply render_step_len_pos|cbn [render_rstep List.length]; lia]. Qed.
@@ -176,10 +192,20 @@ Section ChainExec.
   Definition mk (ps : list item) : pstate := {| params := ps; saved := []; proot := None |}.
   Definition step_key (s : kstep) : string := string_of_bytes (utf8 (step_cps s)).
   Definition step_idx (ds : list N) : Z := match atoi ds with Some z => z | None => 0%Z end.
+  (* a slice bound as the actions store it: the number, or "omitted" *)
+  Definition bound_idx (t : list N) : idx :=
+    match t with [] => {| number := 0; omitted := true |} | _ :: _ => {| number := step_idx t; omitted := false |} end.
+  Definition slice_sub (a b : list N) (c0 : option (list N)) : subscript :=
+    mk_slice (bound_idx a) (bound_idx b) (match c0 with Some t => bound_idx t | None => {| number := 1; omitted := false |} end).
   Definition step_kind (s : kstep) : kind :=
-    match s with SIdx ds => KUnion [SubIndex (step_idx ds)] | SWild _ => KWild | _ => KSingle (step_key s) end.
+    match s with
+    | SIdx ds => KUnion [SubIndex (step_idx ds)]
+    | SWild _ => KWild
+    | SSlice a b c0 => KUnion [slice_sub a b c0]
+    | _ => KSingle (step_key s)
+    end.
   (* does the step select a group of values? *)
-  Definition step_vg (s : kstep) : bool := match s with SWild _ => true | _ => false end.
+  Definition step_vg (s : kstep) : bool := match s with SWild _ | SSlice _ _ _ => true | _ => false end.
   Definition step_text (s : kstep) : string := text_of (render_step s).
   Definition pre_basic_vg (vg : bool) (s : kstep) : basic := {| text := step_text s; ctext := ""; vgroup := vg; accessor := cfg_accessor cfg |}.
   Definition pre_basic (s : kstep) : basic := pre_basic_vg (step_vg s) s.
@@ -202,7 +228,7 @@ Section ChainExec.
   Lemma exec_step input p s ps toks cps b rest : step_ok s = true -> skipn p input = render_step s ++ rest ->
     execute (step_tokens p s ++ toks) input cps b (mk ps) = execute toks input (render_step s) p (mk (ps ++ [INode (pre_node s)])).
   Proof.
-    intros Hs Hin. destruct s as [q k|k|ds|[|]].
+    intros Hs Hin. destruct s as [q k|k|ds|[|]|sa sb sc].
     - cbn [step_ok] in Hs. apply q_ok in Hs. cbn [step_tokens app Actions.execute].
       assert (E1 : sub_list input (p + 2) (p + 2 + List.length (esc_cps q k)) = esc_cps q k).
       { apply (sub_at input p 2 [91; q] (esc_cps q k) ([q; 93] ++ rest)); [|reflexivity]. rewrite Hin. cbn [render_step app]. rewrite <- app_assoc. reflexivity. }
@@ -267,12 +293,71 @@ Section ChainExec.
       change (exec_action 7 (render_step (SWild false)) p ?st) with (set_last_node_text (text_of (render_step (SWild false))) st).
       fold (mk (ps ++ [INode (Node KWild (mk_basic "*" true (acc cfg)) ONone)])).
       rewrite set_last_text_mk by discriminate. cbn [abind]. reflexivity.
+    - pose proof (slice_ok_of sa sb sc Hs) as Hok. cbn [step_ok] in Hs.
+      apply andb_true_iff in Hs. destruct Hs as [Hs Hc]. apply andb_true_iff in Hs. destruct Hs as [Hs Hb]. apply andb_true_iff in Hs. destruct Hs as [_ Ha].
+      cbn [step_tokens]. unfold slice_step_tokens, slice_tokens. rewrite <- !app_assoc. cbn [app Actions.execute].
+      cbn [render_step] in Hin. unfold slice_body in Hin. repeat (progress (cbn [app] in Hin) || rewrite <- app_assoc in Hin).
+      assert (Ea : sub_list input (p + 1) (p + 1 + List.length sa) = sa).
+      { apply (sub_at input p 1 [91] sa ((58 :: sb ++ match sc with Some t => 58 :: t | None => [] end) ++ [93] ++ rest)); [|reflexivity].
+        rewrite Hin. repeat (progress (cbn [app]) || rewrite <- app_assoc). reflexivity. }
+      assert (Eb : sub_list input (p + 1 + List.length sa + 1) (p + 1 + List.length sa + 1 + List.length sb) = sb).
+      { pose proof (sub_at input p (List.length sa + 2) (91 :: sa ++ [58]) sb (match sc with Some t => 58 :: t | None => [] end ++ [93] ++ rest)) as H.
+        replace (p + 1 + List.length sa + 1)%nat with (p + (List.length sa + 2))%nat by lia. apply H.
+        - rewrite Hin. repeat (progress (cbn [app]) || rewrite <- app_assoc). reflexivity.
+        - cbn [List.length]. rewrite app_length. cbn [List.length]. lia. }
+      rewrite Ea, Eb.
+      assert (E21 : forall t bg ps0, atoi_ok t = true -> exec_action 21 t bg (mk ps0) = AOk (mk (ps0 ++ [IIdx (bound_idx t)]))).
+      { intros t bg ps0 Ht. destruct t as [|c1 r1].
+        - reflexivity.
+        - cbn [atoi_ok] in Ht. change (exec_action 21 (c1 :: r1) bg (mk ps0)) with (push_index (c1 :: r1) false (mk ps0)).
+          unfold push_index, bound_idx, step_idx. destruct (atoi (c1 :: r1)); [reflexivity|discriminate Ht]. }
+      rewrite (E21 sa _ ps Ha). cbn [abind]. rewrite (E21 sb _ _ Hb). cbn [abind].
+      set (stepi := match sc with Some t => bound_idx t | None => {| number := 1; omitted := false |} end).
+      assert (E3 : forall toks', exists cps1 bg1,
+                 execute (match sc with
+                          | Some t => [TText (p + 1 + List.length sa + 1 + List.length sb + 1) (p + 1 + List.length sa + 1 + List.length sb + 1 + List.length t); TAct 21]
+                          | None => [TAct 20] end ++ toks') input sb (p + 1 + List.length sa + 1)
+                         (mk ((ps ++ [IIdx (bound_idx sa)]) ++ [IIdx (bound_idx sb)])) =
+                 execute toks' input cps1 bg1 (mk (((ps ++ [IIdx (bound_idx sa)]) ++ [IIdx (bound_idx sb)]) ++ [IIdx stepi]))).
+      { intros toks'. destruct sc as [t|]; cbn [app Actions.execute].
+        - assert (Ec : sub_list input (p + 1 + List.length sa + 1 + List.length sb + 1) (p + 1 + List.length sa + 1 + List.length sb + 1 + List.length t) = t).
+          { pose proof (sub_at input p (List.length sa + List.length sb + 3) (91 :: sa ++ 58 :: sb ++ [58]) t ([93] ++ rest)) as H.
+            replace (p + 1 + List.length sa + 1 + List.length sb + 1)%nat with (p + (List.length sa + List.length sb + 3))%nat by lia. apply H.
+            - rewrite Hin. repeat (progress (cbn [app]) || rewrite <- app_assoc). reflexivity.
+            - cbn [List.length]. rewrite app_length. cbn [List.length]. rewrite app_length. cbn [List.length]. lia. }
+          rewrite Ec. rewrite (E21 t _ _ Hc). cbn [abind]. eexists _, _. reflexivity.
+        - eexists _, _. reflexivity. }
+      destruct (E3 ([TAct 16; TAct 19; TText p (p + List.length (slice_body sa sb sc) + 2); TAct 7] ++ toks)) as (cps1 & bg1 & E3').
+      cbn [app] in E3'. rewrite E3'. clear E3 E3'. cbn [Actions.execute].
+      change (exec_action 16 cps1 bg1 ?st) with
+        (abind (pop_idx st) (fun '(sp0, st1) => abind (pop_idx st1) (fun '(en0, st2) => abind (pop_idx st2) (fun '(st0, st3) => AOk (push (ISub (mk_slice st0 en0 sp0)) st3))))).
+      unfold pop_idx. rewrite !pop_mk. cbn [abind]. rewrite !pop_mk. cbn [abind]. rewrite !pop_mk. cbn [abind].
+      unfold push, with_params, mk. cbn [params saved proot].
+      fold (mk (ps ++ [ISub (mk_slice (bound_idx sa) (bound_idx sb) stepi)])).
+      change (exec_action 19 cps1 bg1 ?st) with
+        (abind (pop st) (fun '(x, st1) => match x with
+           | IIdx i => AOk (push (INode (Node (KUnion [SubIndex (number i)]) (mk_basic "" false (acc cfg)) ONone)) st1)
+           | ISub sb => AOk (push (INode (Node (KUnion [sb]) (mk_basic "" (sub_value_group sb) (acc cfg)) ONone)) st1)
+           | _ => ACrash "type assertion .(syntaxSubscript)" end)).
+      rewrite pop_mk. cbn [abind]. unfold push, with_params, mk. cbn [params saved proot].
+      assert (E2 : sub_list input p (p + List.length (slice_body sa sb sc) + 2) = render_step (SSlice sa sb sc)).
+      { pose proof (sub_at input p 0 [] (render_step (SSlice sa sb sc)) rest) as H. rewrite Nat.add_0_r in H.
+        rewrite render_len_slice in H.
+        replace (p + List.length (slice_body sa sb sc) + 2)%nat with (p + (List.length (slice_body sa sb sc) + 2))%nat by lia.
+        apply H; [|reflexivity]. rewrite Hin. cbn [render_step]. unfold slice_body. repeat (progress (cbn [app]) || rewrite <- app_assoc). reflexivity. }
+      rewrite E2.
+      change (exec_action 7 (render_step (SSlice sa sb sc)) p ?st) with (set_last_node_text (text_of (render_step (SSlice sa sb sc))) st).
+      assert (Evg : sub_value_group (mk_slice (bound_idx sa) (bound_idx sb) stepi) = true).
+      { unfold mk_slice. destruct (number (if omitted stepi then _ else stepi) >=? 0)%Z; reflexivity. }
+      rewrite Evg.
+      fold (mk (ps ++ [INode (Node (KUnion [mk_slice (bound_idx sa) (bound_idx sb) stepi]) (mk_basic "" true (acc cfg)) ONone)])).
+      rewrite set_last_text_mk by discriminate. cbn [abind]. reflexivity.
   Qed.
 
-
   (* ---------- nodes a step stands for ---------- *)
+
   Definition rec_flags (s : kstep) : bool * bool :=
-    match s with SWild _ => (true, true) | SIdx _ => (false, true) | _ => (true, false) end.
+    match s with SWild _ => (true, true) | SIdx _ | SSlice _ _ _ => (false, true) | _ => (true, false) end.
   Definition rec_inner_basic (s : kstep) : basic :=
     match s with
     | SDot k => mk_basic (step_key s) false (cfg_accessor cfg)
@@ -294,7 +379,7 @@ Section ChainExec.
   Proof. destruct x as [s|s]; cbn [rstep_pre]; repeat constructor; cbn [fst]; try apply step_kind_plain; intros; discriminate. Qed.
 
   Lemma push_recursive_step s ps : push_recursive cfg (Node (step_kind s) (rec_inner_basic s) ONone) (mk ps) = mk (ps ++ [INode (rpre_node (RRec s))]).
-  Proof. destruct s as [q k|k|ds|[|]]; reflexivity. Qed.
+  Proof. destruct s as [q k|k|ds|[|]|a b c0]; reflexivity. Qed.
 
   Lemma exec_act3 cps b ps nd toks input :
     execute (TAct 3 :: toks) input cps b (mk (ps ++ [INode nd])) = execute toks input cps b (push_recursive cfg nd (mk ps)).
@@ -311,7 +396,7 @@ Section ChainExec.
     - eexists _, _. cbn [rstep_tokens render_rstep] in *. rewrite (exec_step input p s ps toks cps b rest Hs Hin). reflexivity.
     - cbn [rstep_ok] in Hs. cbn [render_rstep] in Hin.
       assert (Hin2 : skipn (p + 2) input = rec_body s ++ rest) by (rewrite skipn_add, Hin; reflexivity).
-      destruct s as [q k|k|ds|[|]].
+      destruct s as [q k|k|ds|[|]|sa sb sc].
       + cbn [rstep_tokens]. rewrite <- app_assoc. cbn [rec_body] in Hin2.
         rewrite (exec_step input (p + 2) (SBr q k) ps _ cps b rest Hs Hin2). cbn [app]. rewrite exec_act3.
         eexists _, _. unfold pre_node. change (pre_basic (SBr q k)) with (rec_inner_basic (SBr q k)). rewrite push_recursive_step. reflexivity.
@@ -342,6 +427,9 @@ Section ChainExec.
       + cbn [rstep_tokens]. rewrite <- app_assoc. cbn [rec_body] in Hin2.
         rewrite (exec_step input (p + 2) (SWild false) ps _ cps b rest Hs Hin2). cbn [app]. rewrite exec_act3.
         eexists _, _. unfold pre_node. change (pre_basic (SWild false)) with (rec_inner_basic (SWild false)). rewrite push_recursive_step. reflexivity.
+      + cbn [rstep_tokens]. rewrite <- app_assoc. cbn [rec_body] in Hin2.
+        rewrite (exec_step input (p + 2) (SSlice sa sb sc) ps _ cps b rest Hs Hin2). cbn [app]. rewrite exec_act3.
+        eexists _, _. unfold pre_node. change (pre_basic (SSlice sa sb sc)) with (rec_inner_basic (SSlice sa sb sc)). rewrite push_recursive_step. reflexivity.
   Qed.
 
   Lemma exec_steps input steps : forall p ps toks cps b, forallb rstep_ok steps = true -> skipn p input = render_steps steps ->
@@ -374,7 +462,7 @@ Section ChainExec.
   Qed.
 
   Lemma rpre_not_agg root x : chain_step (AOk root) (INode (rpre_node x)) = AOk (append_deep root (rpre_node x)).
-  Proof. destruct x as [s|s]; destruct s as [q k|k|ds|[|]]; reflexivity. Qed.
+  Proof. destruct x as [s|s]; destruct s as [q k|k|ds|[|]|a b c0]; reflexivity. Qed.
 
   Lemma chain_fold rb steps : forall done,
     fold_left chain_step (map (fun s => INode (rpre_node s)) steps) (AOk (Node KRoot rb (link (pres done)))) =
